@@ -119,8 +119,6 @@ impl Stream {
         };
 
         {
-            self.topics_ids.remove(&old_topic_name.clone());
-            self.topics_ids.insert(name.to_owned(), topic_id);
             let topic = self.get_topic_mut(id).with_error_context(|error| {
                 format!("{COMPONENT} (error: {error}) - failed to get mutable reference to topic with id {id}")
             })?;
@@ -141,6 +139,11 @@ impl Stream {
                 format!("{COMPONENT} (error: {error}) - failed to persist topic: {topic}")
             })?;
             info!("Updated topic: {topic}");
+        }
+
+        {
+            self.topics_ids.remove(&old_topic_name);
+            self.topics_ids.insert(name.to_owned(), topic_id);
         }
 
         Ok(())
